@@ -39,8 +39,8 @@ type C13Episode struct {
 	// GarbageKind "bad-lengths": the garbage has a frame header's magic and
 	// version and impossible lengths, so no message may come out of it
 	GarbageKind string `json:"garbage_kind,omitempty"`
-	Cuts    []int      `json:"cuts,omitempty"`    // chunk sizes; empty + Exhaust => all cut positions
-	Exhaust int        `json:"exhaust"`           // 0 none, 1 every single cut, 2 every pair of cuts
+	Cuts        []int  `json:"cuts,omitempty"` // chunk sizes; empty + Exhaust => all cut positions
+	Exhaust     int    `json:"exhaust"`        // 0 none, 1 every single cut, 2 every pair of cuts
 }
 
 type C13Plan struct {
